@@ -92,6 +92,13 @@ pub struct Repl {
     pub last_answer: String,
     /// contact time of the (to, from) pair of the last Repl op, before that op
     pub prev_contact: u64,
+    /// C09 monitor: replica r has held slot s in a non-live state (recycled / tombstone) since
+    /// the last revive of s anywhere
+    pub dead_seen: Vec<[bool; NSLOTS]>,
+    /// C09 monitor: a resurrection was observed (text), reported by the next check
+    pub resurrections: Vec<String>,
+    /// the last convergence attempt ended with replication refused between some pair
+    pub partitioned_seen: bool,
 }
 
 fn mk_entry(slot: usize, name: &str) -> Entry<EntryInit, EntryNew> {
@@ -136,6 +143,9 @@ impl Repl {
             last_contact: vec![vec![0; n]; n],
             last_answer: String::new(),
             prev_contact: 0,
+            dead_seen: vec![[false; NSLOTS]; n],
+            resurrections: Vec::new(),
+            partitioned_seen: false,
             cfg,
         };
         // join everyone to replica 0's domain
@@ -217,8 +227,34 @@ impl Repl {
         });
         if r.is_ok() {
             self.last_contact[to][from] = self.now;
+            // a refresh replaces the consumer's whole state by the supplier's, local changes of
+            // the consumer included (that is what the property prescribes for a laggard): the
+            // monitors continue from the supplier's knowledge
+            self.dead_seen[to] = self.dead_seen[from];
+            self.deleted = [false; NSLOTS];
         }
         opstr(&r)
+    }
+
+    /// C09 monitor step: called after every operation and after every replication step.
+    pub fn observe(&mut self, why: &str) {
+        if !self.cfg.props.contains("C09") {
+            return;
+        }
+        for r in 0..self.cfg.replicas {
+            for s in 0..NSLOTS {
+                match self.life(r, s) {
+                    Life::Recycled | Life::Tombstone => self.dead_seen[r][s] = true,
+                    Life::Live => {
+                        if self.dead_seen[r][s] {
+                            self.resurrections.push(format!("replica {r} held slot {s} as deleted, and after {why} it is live again"));
+                            self.dead_seen[r][s] = false;
+                        }
+                    }
+                    Life::Absent => {}
+                }
+            }
+        }
     }
 
     pub fn slot_entry(&self, r: usize, s: usize) -> Option<SE> {
@@ -271,11 +307,13 @@ impl Repl {
 
     /// Run replication to quiescence, first round in the given edge order; return Err(text) if it
     /// does not quiesce.
-    fn converge(&mut self, order: &[(usize, usize)]) -> Result<(), String> {
+    fn converge(&mut self, order: &[(usize, usize)]) -> Result<bool, String> {
         for round in 0..8 {
             let mut any = false;
+            let mut refused = false;
             for (from, to) in order {
                 let (label, kind) = self.repl(*from, *to);
+                self.observe(&format!("replication {from}->{to}"));
                 if std::env::var("KV_DEBUG").is_ok() {
                     eprintln!("converge round {round}: {from}->{to}: {label}");
                     for r in 0..self.cfg.replicas {
@@ -294,13 +332,16 @@ impl Repl {
                         any = true;
                     }
                     "UnwillingToSupply" => {
-                        // the consumer is ahead of this supplier: the other direction will move first
+                        // the consumer is ahead of this supplier (the other direction will move
+                        // first), or the two have lost their common history and an administrator
+                        // has to refresh one of them
+                        refused = true;
                     }
                     _ => return Err(format!("replication {from}->{to} failed in round {round}: {label}")),
                 }
             }
             if !any {
-                return Ok(());
+                return Ok(refused);
             }
         }
         Err("replication did not quiesce within 8 full rounds".into())
@@ -330,20 +371,34 @@ impl Repl {
         let want_c19 = self.cfg.props.contains("C19");
         let want_c09 = self.cfg.props.contains("C09");
         let want_c08 = self.cfg.props.contains("C08");
-        let deleted = self.deleted;
+
         for (oi, order) in orders.iter().enumerate() {
             let this: &mut Repl = self;
             let res = fork_eval(|| {
                 let mut msgs: Vec<String> = Vec::new();
-                if let Err(e) = this.converge(order) {
-                    return format!("not_quiescent\u{2}{e}");
+                let partitioned = match this.converge(order) {
+                    Ok(p) => p,
+                    Err(e) => return format!("not_quiescent\u{2}{e}"),
+                };
+                if partitioned {
+                    // replication is refused for good between some pair: nothing is claimed about
+                    // convergence (the property demands a refresh), but nothing may be resurrected
+                    let r: Vec<String> = this.resurrections.iter().map(|t| format!("resurrected\u{2}{t}")).collect();
+                    return if r.is_empty() { "\u{4}partitioned".to_string() } else { r.join("\u{3}") };
+                }
+                for t in &this.resurrections {
+                    msgs.push(format!("resurrected\u{2}{t}"));
                 }
                 let dumps: Vec<String> = (0..n).map(|r| this.dump(r, true)).collect();
                 if want_c08 {
                     for r in 1..n {
                         if dumps[r] != dumps[0] {
-                            let d = first_diff(&dumps[0], &dumps[r]);
-                            msgs.push(format!("diverged\u{2}replica 0 and replica {r} differ after quiescence: {d}"));
+                            if std::env::var("KV_DUMPS").is_ok() {
+                                eprintln!("--- replica 0\n{}\n--- replica {r}\n{}", dumps[0].replace(';', "\n    "), dumps[r].replace(';', "\n    "));
+                            }
+                            for (k, what) in diff_dumps(&dumps[0], &dumps[r]) {
+                                msgs.push(format!("diverged:{k}\u{2}replica 0 and replica {r} differ after quiescence: {what}"));
+                            }
                             break;
                         }
                     }
@@ -368,7 +423,7 @@ impl Repl {
                 }
                 if want_c09 {
                     for s in 0..NSLOTS {
-                        if deleted[s] {
+                        if this.deleted[s] {
                             for r in 0..n {
                                 if this.life(r, s) == Life::Live {
                                     msgs.push(format!("resurrected\u{2}slot {s} was deleted but is live on replica {r} after quiescence"));
@@ -376,6 +431,24 @@ impl Repl {
                             }
                         }
                     }
+                }
+                // derived attributes must agree with what they are derived from on every replica
+                for r in 0..n {
+                    let dom = this.srvs[r].read(|t| t.get_domain_name().to_string());
+                    for s in 0..NSLOTS {
+                        if this.life(r, s) == Life::Live {
+                            if let Some(e) = this.slot_entry(r, s) {
+                                let name = e.get_ava_set(Attribute::Name).and_then(|v| v.to_proto_string_clone_iter().next()).unwrap_or_default();
+                                let spn: Vec<String> = e.get_ava_set(Attribute::Spn).map(|v| v.to_proto_string_clone_iter().collect()).unwrap_or_default();
+                                if spn != vec![format!("{name}@{dom}")] {
+                                    msgs.push(format!("spn_mismatch_after_replication\u{2}replica {r} slot {s}: name {name:?} but spn {spn:?} after quiescence"));
+                                }
+                            }
+                        }
+                    }
+                }
+                if !msgs.is_empty() {
+                    return msgs.join("\u{3}");
                 }
                 // the server's own consistency check on every replica
                 for r in 0..n {
@@ -388,6 +461,9 @@ impl Repl {
             });
             match res {
                 Ok(s) if s.is_empty() => {}
+                Ok(s) if s == "\u{4}partitioned" => {
+                    self.partitioned_seen = true;
+                }
                 Ok(s) => {
                     for m in s.split('\u{3}') {
                         let (k, what) = m.split_once('\u{2}').unwrap_or(("?", m));
@@ -430,6 +506,11 @@ impl Repl {
         parts.push(ranks.join(","));
         parts.push(format!("nrepl={}", self.nrepl));
         // pending-ness: does each edge still have something to send? (captured by dumps + ranks)
+        parts.push(format!("dead={:?}", self.dead_seen));
+        // lagging classes: is consumer `to` out of contact with `from` for longer than the window
+        // before from's last trim?
+        let lag: Vec<Vec<bool>> = (0..n).map(|to| (0..n).map(|from| self.trimmed_at[from].map(|t| self.last_contact[to][from] + CHANGELOG_MAX_AGE < t).unwrap_or(false)).collect()).collect();
+        parts.push(format!("lag={lag:?}"));
         parts.push(format!("del={:?} trim={:?}", self.deleted, self.trimmed_at.iter().map(|t| t.is_some()).collect::<Vec<_>>()));
         parts.join("\n")
     }
@@ -452,23 +533,127 @@ fn changes_of(e: &SE) -> Vec<(usize, String)> {
     out
 }
 
-fn first_diff(a: &str, b: &str) -> String {
-    let (la, lb): (Vec<&str>, Vec<&str>) = (a.lines().collect(), b.lines().collect());
-    for i in 0..std::cmp::max(la.len(), lb.len()) {
-        let x = la.get(i).copied().unwrap_or("<missing>");
-        let y = lb.get(i).copied().unwrap_or("<missing>");
-        if x != y {
-            // narrow to the first differing attribute
-            let xa: Vec<&str> = x.split(';').collect();
-            let ya: Vec<&str> = y.split(';').collect();
-            for j in 0..std::cmp::max(xa.len(), ya.len()) {
-                if xa.get(j) != ya.get(j) {
-                    return format!("`{}` vs `{}`", xa.get(j).copied().unwrap_or("<none>").chars().take(200).collect::<String>(), ya.get(j).copied().unwrap_or("<none>").chars().take(200).collect::<String>());
+/// Compare two replica dumps entry by entry. Entries are identified by uuid (conflict entries,
+/// whose uuid is generated, by their source uuid and rank among the conflicts of that source).
+/// Returns one `(kind:attr, text)` per differing attribute; kind is live / recycled / tombstone /
+/// conflict / missing-entry.
+fn diff_dumps(a: &str, b: &str) -> Vec<(String, String)> {
+    type Ent = BTreeMap<String, String>;
+    let parse = |d: &str| -> BTreeMap<String, Ent> {
+        let mut out: BTreeMap<String, Ent> = BTreeMap::new();
+        let mut lines: Vec<&str> = d.lines().collect();
+        lines.sort();
+        for l in lines {
+            let m: Ent = l.split(';').filter_map(|kv| kv.split_once('=')).map(|(k, v)| (k.to_string(), v.to_string())).collect();
+            let class = m.get("class").cloned().unwrap_or_default();
+            let classes: Vec<&str> = class.split('|').collect();
+            let base = if classes.contains(&"conflict") {
+                format!("conflict:{}", m.get("source_uuid").or(m.get("uuid")).cloned().unwrap_or_default())
+            } else if classes.contains(&"tombstone") {
+                format!("tombstone:{}", m.get("uuid").cloned().unwrap_or_default())
+            } else if classes.contains(&"recycled") {
+                format!("recycled:{}", m.get("uuid").cloned().unwrap_or_default())
+            } else {
+                format!("live:{}", m.get("uuid").cloned().unwrap_or_default())
+            };
+            let mut k = 0;
+            while out.contains_key(&format!("{base}#{k}")) {
+                k += 1;
+            }
+            out.insert(format!("{base}#{k}"), m);
+        }
+        out
+    };
+    let (ma, mb) = (parse(a), parse(b));
+    let mut res = Vec::new();
+    let keys: BTreeSet<&String> = ma.keys().chain(mb.keys()).collect();
+    let cut = |o: Option<&String>| o.map(|v| v.chars().take(160).collect::<String>()).unwrap_or_else(|| "<absent>".into());
+    for k in keys {
+        let kind = k.split(':').next().unwrap_or("?");
+        match (ma.get(k), mb.get(k)) {
+            (Some(x), Some(y)) => {
+                let attrs: BTreeSet<&String> = x.keys().chain(y.keys()).collect();
+                for at in attrs {
+                    if x.get(at) != y.get(at) {
+                        res.push((format!("{kind}:{at}"), format!("{k}: {at} = `{}` vs `{}`", cut(x.get(at)), cut(y.get(at)))));
+                    }
                 }
             }
+            _ => res.push((format!("{kind}:entry_missing"), format!("{k} exists on only one of the replicas (present on first: {})", ma.contains_key(k)))),
         }
     }
-    "?".into()
+    if res.is_empty() {
+        res.push(("unclassified".into(), "dumps differ but no per-entry difference was found".into()));
+    }
+    res
+}
+
+impl Repl {
+    fn apply_inner(&mut self, op: &Op) -> String {
+        self.last_answer.clear();
+        match op {
+            Op::Repl(from, to) => {
+                self.nrepl += 1;
+                let (l, k) = self.repl(*from, *to);
+                self.last_answer = k;
+                return l;
+            }
+            Op::Refresh(from, to) => {
+                self.nrepl += 1;
+                return self.refresh(*from, *to);
+            }
+            Op::AgeRecycle(_) => {
+                self.now += RECYCLEBIN_MAX_AGE + 1;
+                let mut labels = Vec::new();
+                for r in 0..self.cfg.replicas {
+                    let ct = self.time();
+                    labels.push(opstr(&self.srvs[r].write(ct, |w| w.purge_recycled().map(|_| ()))));
+                }
+                return labels.join(",");
+            }
+            Op::AgeChangelog(r) => {
+                self.now += CHANGELOG_MAX_AGE + 1;
+                let ct = self.time();
+                self.trimmed_at[*r] = Some(self.now);
+                return opstr(&self.srvs[*r].write(ct, |w| w.purge_tombstones().map(|_| ())));
+            }
+            _ => {}
+        }
+        let ct = self.time();
+        let r: Result<(), OperationError> = match op {
+            Op::Create(r, s, n) => self.srvs[*r].write(ct, |w| w.internal_create(vec![mk_entry(*s, NAMES[*n])])),
+            Op::Rename(r, s, n) => self.srvs[*r].write(ct, |w| w.internal_modify_uuid(slot_uuid(*s), &ModifyList::new_purge_and_set(Attribute::Name, Value::new_iname(NAMES[*n])))),
+            Op::SetDisp(r, s, v) => self.srvs[*r].write(ct, |w| w.internal_modify_uuid(slot_uuid(*s), &ModifyList::new_purge_and_set(Attribute::DisplayName, Value::new_utf8s(["x", "y"][*v])))),
+            Op::SetMail(r, s) => self.srvs[*r].write(ct, |w| {
+                let v = Value::new_email_address_primary_s(&format!("m{r}@mail.example")).unwrap_or_else(|| Value::new_utf8s("x"));
+                w.internal_modify_uuid(slot_uuid(*s), &ModifyList::new_purge_and_set(Attribute::Mail, v))
+            }),
+            Op::PurgeMail(r, s) => self.srvs[*r].write(ct, |w| w.internal_modify_uuid(slot_uuid(*s), &ModifyList::new_list(vec![Modify::Purged(Attribute::Mail)]))),
+            Op::Delete(r, s) => {
+                let x = self.srvs[*r].write(ct, |w| w.internal_delete_uuid(slot_uuid(*s)));
+                if x.is_ok() {
+                    self.deleted[*s] = true;
+                }
+                x
+            }
+            Op::Revive(r, s) => {
+                let x = self.srvs[*r].write(ct, |w| {
+                    let f = Filter::new_recycled(f_eq(Attribute::Uuid, PartialValue::Uuid(slot_uuid(*s))))
+                        .validate(w.get_schema())
+                        .map_err(OperationError::SchemaViolation)?;
+                    w.revive_recycled(&ReviveRecycledEvent { ident: identity_internal(), filter: f })
+                });
+                if x.is_ok() {
+                    self.deleted[*s] = false;
+                }
+                x
+            }
+            Op::AddMember(r, s) => self.srvs[*r].write(ct, |w| w.internal_modify_uuid(slot_uuid(2), &ModifyList::new_list(vec![Modify::Present(Attribute::Member, Value::Refer(slot_uuid(*s)))]))),
+            Op::RemMember(r, s) => self.srvs[*r].write(ct, |w| w.internal_modify_uuid(slot_uuid(2), &ModifyList::new_list(vec![Modify::Removed(Attribute::Member, PartialValue::Refer(slot_uuid(*s)))]))),
+            _ => Ok(()),
+        };
+        opstr(&r)
+    }
 }
 
 impl World for Repl {
@@ -543,74 +728,21 @@ impl World for Repl {
     }
 
     fn apply(&mut self, op: &Op) -> String {
-        self.last_answer.clear();
-        match op {
-            Op::Repl(from, to) => {
-                self.nrepl += 1;
-                let (l, k) = self.repl(*from, *to);
-                self.last_answer = k;
-                return l;
+        let l = self.apply_inner(op);
+        if let (Op::Revive(_, s), "ok") = (op, l.as_str()) {
+            for d in self.dead_seen.iter_mut() {
+                d[*s] = false;
             }
-            Op::Refresh(from, to) => {
-                self.nrepl += 1;
-                return self.refresh(*from, *to);
-            }
-            Op::AgeRecycle(_) => {
-                self.now += RECYCLEBIN_MAX_AGE + 1;
-                let mut labels = Vec::new();
-                for r in 0..self.cfg.replicas {
-                    let ct = self.time();
-                    labels.push(opstr(&self.srvs[r].write(ct, |w| w.purge_recycled().map(|_| ()))));
-                }
-                return labels.join(",");
-            }
-            Op::AgeChangelog(r) => {
-                self.now += CHANGELOG_MAX_AGE + 1;
-                let ct = self.time();
-                self.trimmed_at[*r] = Some(self.now);
-                return opstr(&self.srvs[*r].write(ct, |w| w.purge_tombstones().map(|_| ())));
-            }
-            _ => {}
         }
-        let ct = self.time();
-        let r: Result<(), OperationError> = match op {
-            Op::Create(r, s, n) => self.srvs[*r].write(ct, |w| w.internal_create(vec![mk_entry(*s, NAMES[*n])])),
-            Op::Rename(r, s, n) => self.srvs[*r].write(ct, |w| w.internal_modify_uuid(slot_uuid(*s), &ModifyList::new_purge_and_set(Attribute::Name, Value::new_iname(NAMES[*n])))),
-            Op::SetDisp(r, s, v) => self.srvs[*r].write(ct, |w| w.internal_modify_uuid(slot_uuid(*s), &ModifyList::new_purge_and_set(Attribute::DisplayName, Value::new_utf8s(["x", "y"][*v])))),
-            Op::SetMail(r, s) => self.srvs[*r].write(ct, |w| {
-                let v = Value::new_email_address_primary_s(&format!("m{r}@mail.example")).unwrap_or_else(|| Value::new_utf8s("x"));
-                w.internal_modify_uuid(slot_uuid(*s), &ModifyList::new_purge_and_set(Attribute::Mail, v))
-            }),
-            Op::PurgeMail(r, s) => self.srvs[*r].write(ct, |w| w.internal_modify_uuid(slot_uuid(*s), &ModifyList::new_list(vec![Modify::Purged(Attribute::Mail)]))),
-            Op::Delete(r, s) => {
-                let x = self.srvs[*r].write(ct, |w| w.internal_delete_uuid(slot_uuid(*s)));
-                if x.is_ok() {
-                    self.deleted[*s] = true;
-                }
-                x
-            }
-            Op::Revive(r, s) => {
-                let x = self.srvs[*r].write(ct, |w| {
-                    let f = Filter::new_recycled(f_eq(Attribute::Uuid, PartialValue::Uuid(slot_uuid(*s))))
-                        .validate(w.get_schema())
-                        .map_err(OperationError::SchemaViolation)?;
-                    w.revive_recycled(&ReviveRecycledEvent { ident: identity_internal(), filter: f })
-                });
-                if x.is_ok() {
-                    self.deleted[*s] = false;
-                }
-                x
-            }
-            Op::AddMember(r, s) => self.srvs[*r].write(ct, |w| w.internal_modify_uuid(slot_uuid(2), &ModifyList::new_list(vec![Modify::Present(Attribute::Member, Value::Refer(slot_uuid(*s)))]))),
-            Op::RemMember(r, s) => self.srvs[*r].write(ct, |w| w.internal_modify_uuid(slot_uuid(2), &ModifyList::new_list(vec![Modify::Removed(Attribute::Member, PartialValue::Refer(slot_uuid(*s)))]))),
-            _ => Ok(()),
-        };
-        opstr(&r)
+        self.observe(&format!("{op:?}"));
+        l
     }
 
     fn check(&mut self, last: Option<(&Op, &str)>) -> Vec<(String, String)> {
         let mut out = Vec::new();
-        self.check_convergence(&mut out);
+        for t in std::mem::take(&mut self.resurrections) {
+            out.push(("resurrected".to_string(), t));
+        }
         // C09: a replica that has been out of contact for longer than the changelog window, talking
         // to a supplier that has trimmed since, must not be supplied incrementally
         if self.cfg.props.contains("C09") {
@@ -632,6 +764,15 @@ impl World for Repl {
                 }
             }
         }
+        if !out.is_empty() {
+            self.tainted = true;
+        }
+        out
+    }
+
+    fn check_state(&mut self) -> Vec<(String, String)> {
+        let mut out = Vec::new();
+        self.check_convergence(&mut out);
         if !out.is_empty() {
             self.tainted = true;
         }
